@@ -74,3 +74,112 @@ UNITS = [
        # (directly or through other predicates): equal keys <=> equal relevant bindings
        ensures=["(result == other) == same"], native=gen_callkey),
 ]
+
+
+# ---------------------------------------------------------------------------------------------------------------
+# The make-order loop of Functors.MakeAll (a slice: from `needs_building = ...` to the end of the while loop), proved:
+# every pending @Make is executed exactly when it is called through self.Make; a functor application whose applicant,
+# or one of whose bound values, is itself a pending @Make target is executed only after that target (ghost log of the
+# Make calls); nothing is made twice; on a normal exit nothing is pending.  The third condition of the guard
+# (`self.args_of[applicant] & needs_building`) refers to a table that Make itself rewrites, so it is stated at the call
+# (obligation call-pre of the assumed contract of Make is not expressible over a caller's local): it is covered by the
+# run-time monitor of m_pipeline.py and by the schemas, not by this proof.
+INSTR_FIELDS = {'self.args_of': 'dict[str,set[str]]', 'self.g_made': 'list[tuple[str,Instr]]'}
+APP = "pure_parse(e[0], e[1])"
+MK_INV = [
+    # what has been made is no longer pending, and was a target
+    "all(self.g_made[k][0] not in needs_building and self.g_made[k][0] in targets() for k in range(len(self.g_made)))",
+    # a target is pending or made
+    "all(t in needs_building or any(self.g_made[j][0] == t for j in range(len(self.g_made))) for t in targets())",
+    "all(t in targets() for t in needs_building)",
+    # nothing is made twice
+    "all(all(implies(i != j, self.g_made[i][0] != self.g_made[j][0]) for j in range(len(self.g_made))) "
+    "for i in range(len(self.g_made)))",
+    # order: the applicant of a made application, if it is a target, was made before it; likewise every bound value
+    "all(implies(applicant_of(self.g_made[k][0], self.g_made[k][1]) in targets(), "
+    "any(self.g_made[j][0] == applicant_of(self.g_made[k][0], self.g_made[k][1]) for j in range(k))) "
+    "for k in range(len(self.g_made)))",
+    "all(all(implies(v in targets(), any(self.g_made[j][0] == v for j in range(k))) "
+    "for v in bound_values(self.g_made[k][0], self.g_made[k][1])) for k in range(len(self.g_made)))",
+]
+
+KEYS_INV = ("all(applicant_of(predicate_to_instruction[k][0], predicate_to_instruction[k][1]) in self.args_of "
+            "for k in range(len(predicate_to_instruction)))")
+
+UNITS += [
+  unit(FU, 'Functors.ParseMakeInstruction', external=True, pure=True, params=['predicate', 'instruction'],
+       types={'predicate': 'str', 'instruction': 'Instr'}, returns='tuple[str,str,dict[str,str]]', fields={},
+       requires=[], ensures=["result[0] == predicate"]),
+  unit(FU, 'Functors.Make', external=True, params=['predicate', 'instruction'],
+       types={'predicate': 'str', 'instruction': 'Instr'}, fields=INSTR_FIELDS,
+       modifies=['self.args_of', 'self.g_made'], requires=[],
+       # ghost: the call is recorded; Make rewrites args_of (UpdateStructure)
+       # (position by position: the form the solvers use best)
+       ensures=["len(self.g_made) == len(old(self.g_made)) + 1",
+                "all(self.g_made[k] == old(self.g_made)[k] for k in range(len(old(self.g_made))))",
+                "self.g_made[len(old(self.g_made))][0] == predicate",
+                "self.g_made[len(old(self.g_made))][1] == instruction",
+                "all(a in self.args_of for a in old(self.args_of))"]),
+  unit(FU, 'Functors.MakeAll', name='Functors.MakeAll[order]', props=['C04', 'C03'],
+       slice=('needs_building = set(', 'while needs_building'),
+       params=['predicate_to_instruction'], types={'predicate_to_instruction': 'list[tuple[str,Instr]]'},
+       fields=INSTR_FIELDS, modifies=['self.args_of', 'self.g_made'], cls='Functors',
+       locals={'needs_building': 'set[str]', 'something_built': 'bool'},
+       may_raise={'FunctorError': 'True'}, exceptions=['FunctorError'],
+       abstract_exprs={"set((self.ParseMakeInstruction(p, i)[0] for p, i in predicate_to_instruction))":
+                       ('targets', [], 'set[str]')},
+       ufs={'targets': ([], 'set[str]')},
+       spec_calls={'pure_parse': 'Functors.ParseMakeInstruction'},
+       spec_funcs={'applicant_of': (['p', 'i'], "pure_parse(p, i)[1]"),
+                   'bound_values': (['p', 'i'], "pure_parse(p, i)[2].values()")},
+       # the assumed contract of the pure callee, as an axiom: the name returned is the first argument
+       axioms=["all(all(pure_parse(p, i)[0] == p for i in Sort('Instr')) for p in Sort('str'))"],
+       requires=["len(self.g_made) == 0",
+                 # every applicant has an entry in args_of (Functors.__init__ / UpdateStructure keep one per predicate)
+                 "all(applicant_of(predicate_to_instruction[k][0], predicate_to_instruction[k][1]) in self.args_of "
+                 "for k in range(len(predicate_to_instruction)))",
+                 # the targets are the first components of the instruction list (ParseMakeInstruction returns its first
+                 # argument as name)
+                 "all(predicate_to_instruction[k][0] in targets() for k in range(len(predicate_to_instruction)))",
+                 "all(any(predicate_to_instruction[k][0] == t for k in range(len(predicate_to_instruction))) "
+                 "for t in targets())"],
+       ensures=MK_INV[3:] + [
+           # on a normal exit nothing is pending: every target was made
+           "all(any(self.g_made[j][0] == t for j in range(len(self.g_made))) for t in targets())"],
+       loops={0: {'inv': MK_INV + [KEYS_INV]},
+              1: {'inv': MK_INV + [KEYS_INV],
+                  'focus': {0: {'inv': [(1, 0)], 'req': [2]}, 3: {'inv': [(1, 0), (1, 3)], 'req': []},
+                            4: {'inv': [(1, 1), (1, 4)], 'req': []}, 5: {'inv': [(1, 1), (1, 5)], 'req': []}}}},
+       native=lambda tier, mod: gen_makeall(tier, mod)),
+]
+
+
+def gen_makeall(tier, mod):
+  """The make-order slice run natively on real Functors objects built from the functor programs of the catalogue
+  (and a few with unresolvable orders): self.Make is wrapped to record the ghost log and then runs the real Make."""
+  from vlib import lgen, rt
+  parse = rt.repo_module('parser_py.parse')
+  universe = rt.repo_module('compiler.universe')
+  extra = ['@Engine("sqlite");\nF(x) :- A(x);\nG := H(A: B);\nH := G(A: C);\nP(x) :- G(x);',       # cyclic order
+           '@Engine("sqlite");\nF(x) :- A(x), B(x);\nG3 := F(A: G1);\nG1 := F(B: C);\nG2 := G3(B: G1);\nP(x) :- G2(x);',
+           '@Engine("sqlite");\nLim() = 0;\nF(x) :- A(x), x > Lim();\nG := F(Lim: 3);\nH := G(A: B);']
+  texts = [s['text'] for s in lgen.ALL if ':=' in s['text'] and 'Recursive' not in s['text']] + extra
+  for text in texts:
+    try:
+      rules = parse.ParseFile(text)['rule']
+      ann = universe.Annotations(rules, {})
+      pti = list(ann.annotations['@Make'].items())
+      f = mod.Functors(rules)
+    except Exception:
+      continue
+    f.g_made = []
+    real_make = f.Make
+
+    def make(p, i, f=f, real_make=real_make):
+      f.g_made.append((p, i))
+      return real_make(p, i)
+    f.Make = make
+    names = {p for p, i in pti}
+    yield {'args': [pti], 'self': f, 'nocopy': True,
+           'env': {'targets': (lambda names=names: names), 'pure_parse': (lambda p, i, f=f: f.ParseMakeInstruction(p, i))},
+           'show': {'program': text}}
